@@ -243,7 +243,14 @@ def build_overlay():
     return _overlay
 
 
-def run_impl(layer, lines, mode, args=(), env_extra=None, timeout=1800):
+def _limit_child():
+    """a broken implementation (endless loop, runaway allocation) must not take the sandbox down"""
+    import resource
+    gb = int(os.environ.get("VERIF_IMPL_MEM_GB", "6"))
+    resource.setrlimit(resource.RLIMIT_AS, (gb << 30, gb << 30))
+
+
+def run_impl(layer, lines, mode, args=(), env_extra=None, timeout=None):
     """run operation lines against the real implementation (overlay) in a subprocess.
     mode: 'c' (accelerator) or 'py' (PURE_PYTHON=1). Returns output lines."""
     ov = build_overlay()
@@ -260,11 +267,15 @@ def run_impl(layer, lines, mode, args=(), env_extra=None, timeout=1800):
     env["ZI_OVERLAY"] = ov["path"]
     env["ZI_MODE"] = mode
     env["PYTHONPATH"] = VERIF
+    if timeout is None:
+        timeout = int(os.environ.get("VERIF_IMPL_TIMEOUT", "0")) or max(60, len(lines) // 250)
     try:
         p = subprocess.run([PY, "-m", "harness.impl_exec", layer] + list(args), input="\n".join(lines) + "\n",
-                           capture_output=True, text=True, env=env, timeout=timeout, cwd=VERIF)
+                           capture_output=True, text=True, env=env, timeout=timeout, cwd=VERIF, preexec_fn=_limit_child)
     except subprocess.TimeoutExpired:
-        raise Infra("implementation executor timed out")
+        # the unchanged tree answers the same batch in seconds: an implementation that no longer terminates on it is a
+        # broken correspondence (searched like any other), not an infrastructure failure
+        raise ImplBroken("executor did not finish within %ds on %d lines (mode %s)" % (timeout, len(lines), mode))
     if p.returncode != 0:
         raise ImplBroken("executor rc=%s (mode %s): %s" % (p.returncode, mode, p.stderr[-3000:]))
     out = p.stdout.split("\n")
